@@ -179,6 +179,11 @@ Theorem C08_refuted_stop_before_start_cap : fx_stop_order current = false ->
   exists r, handler_model current envW r = HPanic "app.splitPeriod: makeslice: cap out of range".
 Proof. exact refuted_stop_before_start_cap. Qed.
 
+(** A configuration-looking component behind the asset path (reported by a seed agent, 2026-10-02). *)
+Theorem C08_refuted_location_parts : fx_location current = false ->
+  exists r, handler_model current envW r = HPanic "app.LiveMPD: nil dereference".
+Proof. exact refuted_location_parts. Qed.
+
 (** With every repair recorded, each of the 26 witness requests gets a deliberate status. *)
 Theorem C08_witnesses_repaired :
   map (fun r => status_of (handler_model all_fixed envW r)) all_witnesses =
@@ -207,7 +212,7 @@ Print Assumptions C08_total_other_fixed.
     traffic gate, writeSegment, LiveMPD): on a tree with the repairs named in the premises, for
     well-formed assets, NO request panics or hangs, provided it satisfies [G_live]: segments written
     in one piece (no chunkdur_), no statuscode_ and no traffic_ patterns, a cue duration whose
-    float ceiling is positive, no timeoffset_, times far from the int64 limits, and a content part
+    float ceiling is positive, no timeoffset_, no startrel_/stoprel_, times far from the int64 limits, and a content part
     that is not itself the path of an asset.  Everything else the proof needs (tsbd and StartNr not
     nil and in range, periods in 1..3600, start <= stop, the parser cannot panic) is established by
     the parser inside the proof.  PARTIAL in exactly these exclusions: the chunked writer (guarded since
@@ -228,6 +233,7 @@ Theorem C08_total_guarded_mpd : forall fx e a c mpdName nowMS tsbd,
   match c_pph c with Some n => 1 <= n <= 3600 | None => True end ->
   small (c_startS c * 1000) -> small nowMS -> c_startS c * 1000 <= nowMS ->
   match c_stopS c with Some st => c_startS c <= st /\ small (st * 1000) | None => True end ->
+  c_addLocation c = false ->
   is_bad (live_mpd fx e a c mpdName nowMS) = false.
 Proof. exact live_mpd_safe. Qed.
 Print Assumptions C08_total_guarded_mpd.
@@ -311,7 +317,7 @@ Theorem C08_traffic_current : forall c segPart now,
 Proof. exact (fun c segPart now P C => traffic_gate_safe current c segPart now P C (or_introl eq_refl)). Qed.
 Print Assumptions C08_traffic_current.
 
-(** Nothing is refuted on the current tree any more: every witness request of UrlWitness.v gets a
+(** Every witness request in the list of UrlWitness.v gets a
     deliberate status; the chunked request for a far-future segment with ato_inf (formerly an
     unbounded sleep of the writer) is a 400 since /repo 6ca1ef6. *)
 Theorem C08_witnesses_current :
